@@ -344,5 +344,9 @@ def obligations(tier, seed):
             obs.append(ob)
     for name in ("qualified_join", "unqualified_join", "chain2", "cte"):
         obs.append(AccessorOb(name, TEMPLATES[name][0]))
+    # scripts in which a table is written by a statement that reads nothing / read by one that writes nothing, and a self-insert:
+    # the role accessors draw on tagged sets, which must not grow or shrink by being read
+    obs.append(AccessorOb("write_only_and_chain", ["CREATE TABLE zqt1 (ca int)", "INSERT INTO zqt2 VALUES (1)", "INSERT INTO zqt3 SELECT ca FROM zqt4"]))
+    obs.append(AccessorOb("read_only_and_self_insert", ["SELECT ca FROM zqt1", "INSERT INTO zqt2 SELECT ca FROM zqt2 JOIN zqt3 ON zqt2.id = zqt3.id"]))
     obs.append(AccessorOb("two_inserts", ["INSERT INTO zqt1 SELECT ca FROM zqt2", "INSERT INTO zqt3 SELECT cb FROM zqt4"], "tsql", tsql=True))
     return obs
